@@ -257,6 +257,18 @@ func TestC20(t *testing.T) {
 			}
 			c.c20Check(s, "replay", idx, rp.Extra["finalNL"] != "false", fresh, false)
 		})
+		c.OnReplay("input-session", func(s *Sub, rp *Replay) {
+			var chunks []string
+			for _, l := range strings.Split(rp.Source, "\n") {
+				chunks = append(chunks, l+"\n")
+			}
+			out1, st1, _ := run.CLIMerged(c.Bin, nil, strings.Join(chunks, ""), c.CLIDir(), 30*time.Second)
+			out2, st2, _ := run.CLIMergedChunks(c.Bin, nil, chunks, 25*time.Millisecond, c.CLIDir(), 30*time.Second)
+			c.Ev.Case("replay", rp.Source, true, "replay")
+			if st1 != 0 || st2 != 0 || out1 != rp.Expected || out2 != rp.Expected {
+				s.Violation(Replay{Check: "input-session", Sig: rp.Sig, Source: rp.Source, Note: rp.Note, Expected: rp.Expected, Observed: fmt.Sprintf("at once: status=%d %q; line by line: status=%d %q", st1, clip(out1, 300), st2, clip(out2, 300))})
+			}
+		})
 		c.OnReplay("long-session", func(s *Sub, rp *Replay) {
 			getFresh(s)
 			c.c20LongCheck(s, "replay", c20ParseLong(rp.Extra["spec"]), fresh)
@@ -477,6 +489,115 @@ func TestC20(t *testing.T) {
 				}
 			}
 			c.Ev.MarkExhaustive(fmt.Sprintf("15 built-ins x (no argument, %d single arguments, %d doubled arguments), each as one session forwards and one backwards", len(c17Args), len(c17Args)))
+		})
+		// ইনপুট inside a session: it takes the next line of the same stdin, which then is data and not a line to
+		// run, and the session goes on behind it — whatever the pace at which the pipe delivers the bytes.  The
+		// expected transcript is computed from the line list; the session is fed at once and line by line.
+		ni := 12
+		if c.Thorough {
+			ni = 150
+		}
+		c.Rapid("input-in-session", ni, func(rt *rapid.T, s *Sub) {
+			k := rapid.IntRange(2, 7).Draw(rt, "len")
+			var lines []string
+			want := ""
+			pending := 0 // ইনপুট calls of the current line still waiting for data
+			var askers []string
+			for i := 0; i < k; i++ {
+				if rapid.IntRange(0, 2).Draw(rt, "kind") == 0 {
+					tag := fmt.Sprintf("r%d", i)
+					if rapid.Bool().Draw(rt, "two") {
+						lines = append(lines, fmt.Sprintf("%s \"%s<\" + %s() + \"|\" + %s() + \">\";", bn.KwPrint, tag, bn.BInput, bn.BInput))
+						pending = 2
+					} else {
+						lines = append(lines, fmt.Sprintf("%s \"%s<\" + %s() + \">\";", bn.KwPrint, tag, bn.BInput))
+						pending = 1
+					}
+					askers = append(askers, tag)
+					want += ">> " + tag + "<"
+					for pending > 0 {
+						data := rapid.SampledFrom([]string{"hello", bn.KwPrint + " 5;", "  padded  ", "7 * 6;", "x"}).Draw(rt, "data")
+						lines = append(lines, data)
+						want += strings.TrimSpace(data)
+						pending--
+						if pending > 0 {
+							want += "|"
+						}
+					}
+					want += ">\n"
+				} else {
+					v := rapid.IntRange(1, 99).Draw(rt, "v")
+					if rapid.Bool().Draw(rt, "echo") {
+						lines = append(lines, fmt.Sprintf("%d + 1;", v))
+					} else {
+						lines = append(lines, fmt.Sprintf("%s %d + 1;", bn.KwPrint, v))
+					}
+					want += fmt.Sprintf(">> %d\n", v+1)
+				}
+			}
+			want += ">> "
+			desc := strings.Join(lines, "\n")
+			c.Ev.Case("input-in-session", desc, len(askers) > 0, fmt.Sprintf("input-lines-%d", len(askers)))
+			var chunks []string
+			for _, l := range lines {
+				chunks = append(chunks, l+"\n")
+			}
+			for _, mode := range []string{"at-once", "line-by-line"} {
+				var out string
+				var st int
+				var to bool
+				if mode == "at-once" {
+					out, st, to = run.CLIMerged(c.Bin, nil, strings.Join(chunks, ""), c.CLIDir(), 30*time.Second)
+				} else {
+					out, st, to = run.CLIMergedChunks(c.Bin, nil, chunks, 25*time.Millisecond, c.CLIDir(), 30*time.Second)
+				}
+				c.Ev.CLICross++
+				if to || st != 0 || out != want {
+					s.Violation(Replay{Check: "input-session", Sig: "input-" + mode, Source: desc, Note: "stdin delivered " + mode + ": ইনপুট must take the next line of stdin as data and the session must go on behind it", Expected: want,
+						Observed: fmt.Sprintf("status=%d output=%q", st, clip(out, 600))})
+					return
+				}
+			}
+		})
+		// every callee form with 0-3 arguments as a session line of its own (each line brings its own
+		// declarations): a failing call ends neither the session nor any later answer
+		c.Sub("callee-form-sessions", func(s *Sub) {
+			if c.Shard != 0 {
+				return
+			}
+			pre := bn.KwFun + " f1(a) { " + bn.KwReturn + " a; } " + bn.KwFun + " f2(a, b) { " + bn.KwReturn + " b; } " + bn.KwVar + " arr = [" + bn.BLen + ", f1, 7]; " + bn.KwVar + " obj = {m: " + bn.BLen + ", n: f2, v: 3}; "
+			callees := []string{"f1", "f2", bn.BLen, bn.BMax, "arr[0]", "arr[1]", "arr[2]", "arr[9]", "obj.m", "obj.n", "obj.v", "obj.zz", "(f1)", "(" + bn.BLen + " " + bn.KwOr + " 1)", "(nil " + bn.KwOr + " f2)", "(x = f1)", "f1(f1)", "f2(1, f1)", "[f1][0]", "({k: f2}).k", "5", "nil", "\"s\"", "undefinedName", "f1(1)", "arr[1](1)"}
+			args := []string{"11", "22", "33"}
+			var lines []string
+			for _, cal := range callees {
+				for n := 0; n <= 3; n++ {
+					lines = append(lines, pre+bn.KwPrint+" "+cal+"("+strings.Join(args[:n], ", ")+");")
+				}
+			}
+			rev := make([]string, len(lines))
+			for i, l := range lines {
+				rev[len(lines)-1-i] = l
+			}
+			pf, st1, raw1, ok1 := c.c20Session(lines, true)
+			pb, st2, raw2, ok2 := c.c20Session(rev, true)
+			c.Ev.EnumCase("callee-form-sessions", true, func() string { return strings.Join(lines, "\n") }, "callee-forms")
+			fail := func(sig, msg, raw string) {
+				s.Violation(Replay{Check: "builtin-session", Sig: sig, Source: strings.Join(lines, "\n"), Note: msg, Observed: fmt.Sprintf("output=%q", clip(raw[max(0, len(raw)-700):], 700))})
+			}
+			switch {
+			case !ok1 || st1 != 0 || len(pf) != len(lines)+2:
+				fail("callee-forward", fmt.Sprintf("session of %d call lines: status %d, %d prompts (expected status 0 and %d prompts)", len(lines), st1, len(pf)-1, len(lines)+1), raw1)
+			case !ok2 || st2 != 0 || len(pb) != len(lines)+2:
+				fail("callee-backward", fmt.Sprintf("reversed session of %d call lines: status %d, %d prompts", len(lines), st2, len(pb)-1), raw2)
+			default:
+				for i, l := range lines {
+					if pf[i+1] != pb[len(lines)-i] {
+						fail("callee-order-dependent", fmt.Sprintf("line %q answered %q in one session and %q in the reversed one", l, pf[i+1], pb[len(lines)-i]), raw1)
+						break
+					}
+				}
+			}
+			c.Ev.MarkExhaustive(fmt.Sprintf("%d callee forms x 0..3 arguments, one session forwards and one backwards", len(callees)))
 		})
 		// lines that call a built-in with arbitrary arguments (mostly misuse): whatever the call does, the
 		// session goes on and every line is answered as in a fresh session
